@@ -25,13 +25,13 @@ REG = Registry(
 def g_train(draw):
     c = gen.fa_case(draw, jfa=True, max_sessions=1)
     r = gen.rng(draw)
-    K = gen.integer(draw, 2, 5 if gen.big() else 4)
-    per = [gen.integer(draw, 1, 4) for _ in range(K)]
+    K = gen.integer(draw, 2, 8 if gen.big() else 6)  # more classes than rank(V)+1 leave class-level residual for D
+    per = [gen.integer(draw, 1, 4 if K <= 4 else 3) for _ in range(K)]
     labels = np.concatenate([np.full(n, i) for i, n in enumerate(per)]).astype(int)
     labels = labels[np.array(gen.permutation(draw, len(labels)))]
     p = c["ubm"]
     # class-dependent shift so that V has something to explain
-    cls_shift = np.sqrt(p["variances"])[None] * r.normal(0, 1, (K,) + p["means"].shape)
+    cls_shift = np.sqrt(p["variances"])[None] * r.normal(0, gen.choice(draw, [1.0, 1.0, 3.0]), (K,) + p["means"].shape)
     stats = []
     for lab in labels:
         st = gen.fractional_stats(draw, p["C"], p["F"], p["means"] + cls_shift[lab], p["variances"],
